@@ -586,13 +586,18 @@ func StreamSetFromArrayInterface(list []interface{}) *StreamSetForInterfaceDef {
 	return StreamSetForInterfaceFromArray(list)
 }
 
+// streamOfInterface Get the Stream stored under a key (nil for a missing, nil or typed-nil entry)
+func streamOfInterface(v interface{}) *StreamForInterfaceDef {
+	stream, _ := v.(*StreamForInterfaceDef)
+	return stream
+}
+
 // Clone Clone this StreamSetForInterface
 func (streamSetSelf *StreamSetForInterfaceDef) Clone() *StreamSetForInterfaceDef {
 	result := &StreamSetForInterfaceDef{SetForInterfaceDef: SetForInterfaceDef(DuplicateMapForInterface(streamSetSelf.SetForInterfaceDef))}
 	for k, v := range result.SetForInterfaceDef {
-		if v != nil {
-			v = v.(*StreamForInterfaceDef).Clone()
-			(result.SetForInterfaceDef)[k] = v
+		if stream := streamOfInterface(v); stream != nil {
+			(result.SetForInterfaceDef)[k] = stream.Clone()
 		}
 	}
 
@@ -609,12 +614,12 @@ func (streamSetSelf *StreamSetForInterfaceDef) Union(input *StreamSetForInterfac
 
 	for k, v := range streamSetSelf.SetForInterfaceDef {
 		v2, ok := (input.SetForInterfaceDef)[k]
-		if ok && v2 != nil && v2.(*StreamForInterfaceDef).Len() > 0 {
-			if v == nil {
-				v = new(StreamForInterfaceDef)
+		if stream2 := streamOfInterface(v2); ok && stream2 != nil && stream2.Len() > 0 {
+			stream := streamOfInterface(v)
+			if stream == nil {
+				stream = new(StreamForInterfaceDef)
 			}
-			v = v.(*StreamForInterfaceDef).Extend(v2.(*StreamForInterfaceDef))
-			(result.SetForInterfaceDef)[k] = v
+			(result.SetForInterfaceDef)[k] = stream.Extend(stream2)
 		} else if ok {
 			// The other side has nothing under this key: keep our own stream
 			(result.SetForInterfaceDef)[k] = v
@@ -634,13 +639,13 @@ func (streamSetSelf *StreamSetForInterfaceDef) Intersection(input *StreamSetForI
 
 	for k, v := range result.SetForInterfaceDef {
 		v2, ok := (input.SetForInterfaceDef)[k]
-		if ok && v2 != nil && v2.(*StreamForInterfaceDef).Len() > 0 {
-			if v == nil {
-				v = new(StreamForInterfaceDef)
+		if stream2 := streamOfInterface(v2); ok && stream2 != nil && stream2.Len() > 0 {
+			stream := streamOfInterface(v)
+			if stream == nil {
+				stream = new(StreamForInterfaceDef)
 			}
 
-			v = v.(*StreamForInterfaceDef).Intersection(v2.(*StreamForInterfaceDef))
-			(result.SetForInterfaceDef)[k] = v
+			(result.SetForInterfaceDef)[k] = stream.Intersection(stream2)
 		}
 	}
 
@@ -657,13 +662,13 @@ func (streamSetSelf *StreamSetForInterfaceDef) MinusStreams(input *StreamSetForI
 
 	for k, v := range result.SetForInterfaceDef {
 		v2, ok := (input.SetForInterfaceDef)[k]
-		if ok && v2 != nil && v2.(*StreamForInterfaceDef).Len() > 0 {
-			if v == nil {
-				v = new(StreamForInterfaceDef)
+		if stream2 := streamOfInterface(v2); ok && stream2 != nil && stream2.Len() > 0 {
+			stream := streamOfInterface(v)
+			if stream == nil {
+				stream = new(StreamForInterfaceDef)
 			}
 
-			v = v.(*StreamForInterfaceDef).Minus(v2.(*StreamForInterfaceDef))
-			(result.SetForInterfaceDef)[k] = v
+			(result.SetForInterfaceDef)[k] = stream.Minus(stream2)
 		}
 	}
 
